@@ -1,5 +1,6 @@
 """C04 - multiply / divide: dimension exponents add, base-unit magnitudes multiply.
 One * / // ** step from operands built by the real operators; symbolic: every leaf amount."""
+import json
 import random
 
 import z3
@@ -8,7 +9,7 @@ from symx.check import Raised
 from symx.core import approx, term, zabs
 
 from . import exprs
-from .common import build, dims_of, mag_of, model_dims, n_leaves, qmap, spec_str
+from .common import first_value, leaf_class, build, dims_of, mag_of, model_dims, n_leaves, qmap, spec_str
 
 PID = "C04"
 FUNCTIONS = ["Scalar.__mul__/__truediv__/__floordiv__/__pow__/__rmul__/__rtruediv__/_DoOperation",
@@ -44,8 +45,11 @@ def items(tier, seed):
                 for e in ([2, 3] if tier == "quick" else [1, 2, 3, 4]):
                     out.append({"A": A, "B": None, "op": "pow", "n": e})
             out.append({"A": A, "B": A, "op": "self_div"})
+    for i, c in enumerate(out):
+        if i % 5 == 0 and c["op"] in ("mul", "div", "self_div") and "pow" not in json.dumps(c):
+            c["arr"] = ["numpy", "list", "tuple"][(i // 5) % 3]
     for c in out:
-        if c["op"] == "mul":
+        if c["op"] == "mul" and not c.get("arr"):
             c["canary"] = True
             break
     rng.shuffle(out)
@@ -58,12 +62,13 @@ def inputs(cfg):
 
 
 def _vq(o):
-    return (o.GetAbstractValue(), qmap(o))
+    return (first_value(o), qmap(o))
 
 
 def run(cfg, V):
     ctr = [0]
-    A = build(cfg["A"], V, ctr)
+    cls = leaf_class(cfg.get("arr"))
+    A = build(cfg["A"], V, ctr, cls)
     op = cfg["op"]
     if op == "pow":
         r = A ** cfg["n"]
@@ -71,7 +76,7 @@ def run(cfg, V):
     if op == "self_div":
         r = A / A
         return {"A": _vq(A), "r": _vq(r), "cls": type(r).__name__}
-    B = build(cfg["B"], V, ctr)
+    B = build(cfg["B"], V, ctr, cls)
     out = {"A": _vq(A), "B": _vq(B)}
     if op == "mul":
         r = A * B
@@ -117,7 +122,7 @@ def props(cfg, T, obs):
     op = cfg["op"]
     mA, mr = mag_of(*obs["A"]), mag_of(*obs["r"])
     dA, dr = dims_of(obs["A"][1]), dims_of(obs["r"][1])
-    P = [("result is a Scalar", obs["cls"] == "Scalar"), ("zero exponents disappear", _wellformed(obs["r"][1])),
+    P = [("result is a Scalar (Array for Array operands)", obs["cls"] == ("Array" if cfg.get("arr") else "Scalar")), ("zero exponents disappear", _wellformed(obs["r"][1])),
          ("operand dims match the dimensional model", dA == model_dims(cfg["A"]))]
     if op == "pow":
         n = cfg["n"]
@@ -148,5 +153,5 @@ def props(cfg, T, obs):
 
 
 def finding_key(cfg, name):
-    sym = {"mul": "*", "div": "/", "fdiv": "//", "pow": "**", "self_div": "/self"}[cfg["op"]]
+    sym = {"mul": "*", "div": "/", "fdiv": "//", "pow": "**", "self_div": "/self"}[cfg["op"]] + (" [Array.%s]" % cfg["arr"] if cfg.get("arr") else "")
     return "%s %s %s :: %s" % (spec_str(cfg["A"]), sym, spec_str(cfg["B"]) if cfg["B"] else cfg.get("n"), name)
